@@ -1,6 +1,6 @@
 (* C18 — executable checks: replay of recorded event logs, the property predicate on observed logs,
    shape obligations on the extracted statements. Definitions only. *)
-From Coq Require Import List Arith Bool String.
+From Coq Require Import List Arith NArith Bool String.
 Import ListNotations.
 Require Import Verif.Model.C18_Types Verif.Model.C18 Verif.Model.C18_Sync.
 
@@ -36,9 +36,9 @@ Fixpoint bfs (E : task -> list task) (fuel : nat) (work seen : list task) : list
 Definition reachable (E : task -> list task) (fuel : nat) (x : task) : list task := bfs E fuel [x] [x].
 
 Inductive viol :=
-| VUndone (ev : nat) (w : nat) (x : task) (undone : list task)        (* wait returned, these reachable tasks were not done *)
-| VUnbuilt (ev : nat) (w : nat) (x : task) (unbuilt : list nat)       (* ... these shared functions of reachable builders were not built *)
-| VBuiltTwice (ev : nat) (f : nat)                                     (* a function body was built a second time *)
+| VUndone (ev : nat) (w : id) (x : task) (undone : list task)        (* wait returned, these reachable tasks were not done *)
+| VUnbuilt (ev : nat) (w : id) (x : task) (unbuilt : list id)       (* ... these shared functions of reachable builders were not built *)
+| VBuiltTwice (ev : nat) (f : id)                                     (* a function body was built a second time *)
 | VEdgeAfterDone (ev : nat) (x y : task).                              (* an edge was added to a task already done: it can be missed by a waiter *)
 
 Fixpoint scan (final : state) (fuel : nat) (s : state) (tr : list label) (i : nat) : list viol :=
@@ -50,7 +50,7 @@ Fixpoint scan (final : state) (fuel : nat) (s : state) (tr : list label) (i : na
         | LWaitFast w x | LWaitClosed w x =>
             let rs := reachable (edges final) fuel x in
             let undone := filter (fun y => negb (done s y)) rs in
-            let unbuilt := map fst (filter (fun ft => memb (snd ft) rs && negb (built s (fst ft))) (fns final)) in
+            let unbuilt := map fst (filter (fun ft => negb (built s (fst ft))) (filter (fun ft => memb (snd ft) rs) (fns final))) in
             (if match undone with [] => true | _ => false end then [] else [VUndone i w x undone]) ++
             (if match unbuilt with [] => true | _ => false end then [] else [VUnbuilt i w x unbuilt])
         | LBuilt f => if built s f then [VBuiltTwice i f] else []
@@ -64,7 +64,7 @@ Definition trace_violations (tr : list label) : list viol :=
   scan (apply_all init tr) (S (List.length tr)) init tr 0.
 
 (* a package's guarded build body ran more than once *)
-Fixpoint dups (l : list nat) : list nat :=
+Fixpoint dups (l : list id) : list id :=
   match l with
   | [] => []
   | x :: r => if memb x r then x :: dups r else dups r
@@ -72,7 +72,7 @@ Fixpoint dups (l : list nat) : list nat :=
 
 Record obs := mkObs {
   o_trace : list label;          (* task/builder events of one program build, in log order *)
-  o_pkgbuilds : list nat         (* package numbers, one entry per run of Package.build's body *)
+  o_pkgbuilds : list id         (* package numbers, one entry per run of Package.build's body *)
 }.
 
 Definition mismatches (cases : list obs) : list (nat * nat * label) :=
@@ -82,7 +82,7 @@ Definition mismatches (cases : list obs) : list (nat * nat * label) :=
                       end)
            (combine (seq 0 (List.length cases)) cases).
 
-Definition violations (cases : list obs) : list (nat * list viol * list nat) :=
+Definition violations (cases : list obs) : list (nat * list viol * list id) :=
   flat_map (fun ic => let v := trace_violations (o_trace (snd ic)) in
                       let d := dups (o_pkgbuilds (snd ic)) in
                       match v, d with [], [] => [] | _, _ => [(fst ic, v, d)] end)
